@@ -5,6 +5,8 @@ LEVEL = "model_checking"
 PREFIXES = ("C03/",)
 
 ASSUME = [
+    "tf=1 configurations: a send(2) on an established TCP socket may be answered -1/ENOBUFS or -1/ENOMEM once with the "
+    "connection unaffected (send(2) documents both); the application flushes, re-offers the same message and flushes",
     "sizes {0, 1, 65535, 65536, 2^20}; failure points: EAGAIN from the lower layer at every write (deviation), EINTR at every "
     "blocking wait inside xcm_send (deviation 'signal'), EMSGSIZE/EINVAL by size; after a failed call the application either "
     "re-sends the same message or moves on to the next one",
@@ -23,15 +25,23 @@ def configs(tier):
         c.append(("tp=%s,script=S1,ma=b,mb=b,sig=1,resend=1,%s" % (tp, M), dq if q else dt))
         for pol in ("same", "shorter", "different", "longer"):
             c.append(("tp=%s,script=R1,retry=%s,%s" % (tp, pol, M), dq if q else dt))
+    # a send(2) answered ENOBUFS/ENOMEM with the connection itself unaffected (tf=1), after which the application
+    # flushes, offers the same message again and flushes: a message whose xcm_send returned -1 must never arrive
+    for tp, dq, dt in (("tcp", 2, 3), ("tls", 1, 2), ("utlstls", 1, 2)):
+        c.append(("tp=%s,script=T1s,style=spec,tf=1,menu=0,%s" % (tp, M), dq if q else dt))
+        c.append(("tp=%s,script=T1s,ma=b,mb=b,tf=1,menu=0,%s" % (tp, M), dq if q else dt))
+        c.append(("tp=%s,script=T2,style=loop,tf=1,menu=0x9,%s" % (tp, M), dq if q else dt))
     for tp, dq, dt in (("tcp", 3, 4), ("ux", 3, 4), ("uxf", 3, 4), ("utls", 3, 4), ("tls", 2, 3), ("utlstls", 2, 3)):
         # sizes, non-blocking and blocking
         c.append(("tp=%s,script=T5,style=spec,%s" % (tp, M), max(1, (dq if q else dt) - 1)))
         c.append(("tp=%s,script=T5,ma=b,mb=b,%s" % (tp, M), max(1, (dq if q else dt) - 1)))
         # signals at every blocking wait; resend the same message / move on
         for resend in (1, 0):
-            c.append(("tp=%s,script=T1s,ma=b,mb=b,sig=1,resend=%d,%s" % (tp, resend, M), dq if q else dt))
+            # (tcp at D=3 is 80k-165k executions per configuration: quick stays at 2 there)
+            dsig = (dq if q else dt) - (1 if q and tp == "tcp" else 0)
+            c.append(("tp=%s,script=T1s,ma=b,mb=b,sig=1,resend=%d,%s" % (tp, resend, M), dsig))
             c.append(("tp=%s,script=T6,ma=b,mb=nb,style=strict,sig=1,resend=%d,%s" % (tp, resend, M),
-                      (dq if q else dt) - (1 if tp in ("tls", "utlstls") else 0)))
+                      dsig - (1 if tp in ("tls", "utlstls") else 0)))
         # accepted, finished, closed: everything must have arrived before the peer sees the end
         c.append(("tp=%s,script=T4,style=spec,%s" % (tp, M), dq if q else dt))
         c.append(("tp=%s,script=T4,ma=b,mb=nb,style=spec,%s" % (tp, M), (dq if q else dt) - 1))
@@ -43,4 +53,4 @@ def configs(tier):
 def run(chk, tier, jobs, deadline):
     chk.assumptions += ASSUME
     msgfamily.run_configs(chk, "h_msg", configs(tier), PREFIXES, jobs,
-                          deadline or (420 if tier == "quick" else 2700))
+                          deadline or (600 if tier == "quick" else 2700))
